@@ -94,6 +94,24 @@ func (p *pkgInfo) structDecl(name string) []structField {
 	return nil
 }
 
+// typeDecl returns the type expression a package-level type name is declared as
+func (p *pkgInfo) typeDecl(name string) ast.Expr {
+	for _, f := range p.files {
+		for _, d := range f.Decls {
+			gd, ok := d.(*ast.GenDecl)
+			if !ok || gd.Tok != token.TYPE {
+				continue
+			}
+			for _, s := range gd.Specs {
+				if ts := s.(*ast.TypeSpec); ts.Name.Name == name {
+					return ts.Type
+				}
+			}
+		}
+	}
+	return nil
+}
+
 // Go type expression -> the translator's type name
 func (t *rdTr) goType(e ast.Expr) string {
 	switch x := e.(type) {
@@ -116,6 +134,12 @@ func (t *rdTr) goType(e ast.Expr) string {
 		}
 		if t.p.structDecl(x.Name) != nil {
 			return "struct:" + x.Name
+		}
+		// a named or alias type of the package with a non-struct underlying type
+		if u := t.p.typeDecl(x.Name); u != nil {
+			if _, isStruct := u.(*ast.StructType); !isStruct {
+				return t.goType(u)
+			}
 		}
 	case *ast.StarExpr:
 		return t.goType(x.X)
